@@ -205,7 +205,7 @@ pub fn run_cli(cwd: &str, args: &[String], hash_seed: u64, readdir_seed: Option<
         });
     }
     // the CLI has no timers; a run that needs more than CLI_TIMEOUT_S is reported as exit 2000
-    let mut child = cmd.spawn().expect("spawn cli");
+    let child = cmd.spawn().expect("spawn cli");
     let pid = child.id() as i32;
     let done = std::sync::Arc::new(std::sync::atomic::AtomicBool::new(false));
     let timed_out = std::sync::Arc::new(std::sync::atomic::AtomicBool::new(false));
